@@ -306,6 +306,34 @@ def fold_leb128(repo: Repo) -> dict | None:
                 pass
             except Exhausted:
                 out["loop_bad"].append(("read", signed, "truncated input"))
+        # null-terminated arrays: x[] stops at - and consumes - the first element whose *value* is zero, however that zero is encoded
+        r0 = repo.func_opt("types/leb128.py", "LEB128._read_0")
+        out["read0_bad"] = []
+        if r0 is not None:
+            io_sym = Sym("io", {"SEEK_CUR": 1, "SEEK_SET": 0, "SEEK_END": 2})
+            for signed in (False, True):
+                for label, data, want_vals, want_pos in (
+                        ("5 7 0", b"\x05\x07\x00\x2a", [5, 7], 3), ("a minimal zero first", b"\x00\x09", [], 1), ("300 0", b"\xac\x02\x00\x01", [300], 3),
+                        ("5 7 and a zero encoded as 80 00", b"\x05\x07\x80\x00\x2a\x09\x00", [5, 7], 4),
+                        ("a zero encoded as 80 80 00", b"\x03\x80\x80\x00\x2a\x00", [3], 4),
+                        ("no terminator", b"\x05\x07", "raise", None)):
+                    cls = Sym("leb", {"signed": signed}, {"__new__": Host(lambda c, v: v), "_read": UserFunc(rd.node)})
+                    st = _Stream(data)
+                    try:
+                        got = Evaluator({**base_env, "io": io_sym, "__imports__": {"io": io_sym}}, steps=8000).call_user(UserFunc(r0.node), [cls, st.sym()], {})
+                        got = list(got)
+                    except (Raised, EOFError):
+                        got = "raise"
+                    except Exhausted:
+                        got = "does not terminate"
+                    except Refused:
+                        out["read0_bad"] = None  # outside the whitelist: the structural terminator rule decides
+                        break
+                    out["cases"] += 1
+                    if got != want_vals or (want_pos is not None and st.pos != want_pos):
+                        out["read0_bad"].append((signed, label, data.hex(), got, st.pos, want_vals, want_pos))
+                if out["read0_bad"] is None:
+                    break
     except Refused:
         return None
     except (TypeError, KeyError, IndexError, ValueError, AttributeError):
@@ -1474,6 +1502,8 @@ def fold_add_type(repo: Repo) -> dict | None:
             typedefs: dict = {"one": t1}
             if existing is not None:
                 typedefs["x"] = existing
+            typedefs["later"] = "one"
+            order_before = list(typedefs)
 
             def resolve(n, typedefs=typedefs):
                 while isinstance(n, str):
@@ -1485,6 +1515,10 @@ def fold_add_type(repo: Repo) -> dict | None:
             try:
                 Evaluator({}, steps=500).call_user(UserFunc(fi.node), args, {})
                 got = "stored" if typedefs.get("x") is new else f"not stored ({typedefs.get('x')})"
+                # the table keeps the order of first definition (a name registered again stays where it was; a new one goes to the end)
+                want_order = order_before if existing is not None else [*order_before, "x"]
+                if got == "stored" and list(typedefs) != want_order:
+                    got = f"stored, but the table order is now {list(typedefs)} (order of first definition: {want_order})"
             except Raised as e:
                 got = str(e).split("(")[0].split(":")[0]
             out["cases"] += 1
